@@ -122,13 +122,32 @@ Proof.
   apply IH. simpl. apply (sym_edge (g_vs g1) id did HS1).
 Qed.
 
+Lemma resolve_vs g a : g_vs (fst (resolve g a)) = g_vs g.
+Proof. destruct a as [t|id]; simpl; [reflexivity|]. destruct (alookup id (g_vs g)); reflexivity. Qed.
+
+Lemma resolve_all_vs l : forall g, g_vs (fst (resolve_all g l)) = g_vs g.
+Proof.
+  induction l as [|a r IH]; intros g; simpl; [reflexivity|].
+  destruct (resolve g a) as [g1 t] eqn:R. destruct (resolve_all g1 r) as [g2 ts] eqn:RA. simpl.
+  pose proof (IH g1) as H. rewrite RA in H. simpl in H. rewrite H.
+  pose proof (resolve_vs g a) as H1. rewrite R in H1. exact H1.
+Qed.
+
 Lemma sym_apply g op : Sym (g_vs g) -> Sym (g_vs (apply_gop g op)).
 Proof.
-  intros HS. destruct op as [t|t deps|t n]; simpl.
-  - destruct (add_task g t) as [g'|e] eqn:A; [eapply sym_add_task; eauto | exact HS].
-  - destruct (retrieve_or_add g t) as [[g1 id]|e] eqn:R; [|exact HS].
+  intros HS. destruct op as [a|a adeps|a n]; simpl.
+  - destruct (resolve g a) as [g0 t] eqn:R.
+    assert (HS0 : Sym (g_vs g0)) by (pose proof (resolve_vs g a) as E; rewrite R in E; simpl in E; rewrite E; exact HS).
+    destruct (add_task g0 t) as [g'|e] eqn:A; [eapply sym_add_task; eauto | exact HS0].
+  - destruct (resolve g a) as [ga t] eqn:R. destruct (resolve_all ga adeps) as [g0 deps] eqn:RA.
+    assert (HS0 : Sym (g_vs g0)).
+    { pose proof (resolve_all_vs adeps ga) as E2. rewrite RA in E2. simpl in E2. rewrite E2.
+      pose proof (resolve_vs g a) as E; rewrite R in E; simpl in E; rewrite E; exact HS. }
+    destruct (retrieve_or_add g0 t) as [[g1 id]|e] eqn:RR; [|exact HS0].
     apply sym_depends_on. eapply sym_retrieve; eauto.
-  - destruct (retrieve_or_add g t) as [[g1 id]|e] eqn:R; [|exact HS].
+  - destruct (resolve g a) as [g0 t] eqn:R.
+    assert (HS0 : Sym (g_vs g0)) by (pose proof (resolve_vs g a) as E; rewrite R in E; simpl in E; rewrite E; exact HS).
+    destruct (retrieve_or_add g0 t) as [[g1 id]|e] eqn:RR; [|exact HS0].
     simpl. apply (sym_retries (g_vs g1) id n). eapply sym_retrieve; eauto.
 Qed.
 
@@ -230,12 +249,20 @@ Qed.
 
 Lemma closed_apply g op : ClosedG (g_vs g) -> ClosedG (g_vs (apply_gop g op)).
 Proof.
-  intros HC. destruct op as [t|t deps|t n]; simpl.
-  - destruct (add_task g t) as [g'|e] eqn:A; [exact (proj1 (closed_add_task _ _ _ HC A)) | exact HC].
-  - destruct (retrieve_or_add g t) as [[g1 id]|e] eqn:R; [|exact HC].
-    destruct (closed_retrieve _ _ _ _ HC R) as (C1 & _ & C3). apply closed_depends_on; assumption.
-  - destruct (retrieve_or_add g t) as [[g1 id]|e] eqn:R; [|exact HC].
-    destruct (closed_retrieve _ _ _ _ HC R) as (C1 & _ & C3). simpl.
+  intros HC. destruct op as [a|a adeps|a n]; simpl.
+  - destruct (resolve g a) as [g0 t] eqn:R.
+    assert (HC0 : ClosedG (g_vs g0)) by (pose proof (resolve_vs g a) as E; rewrite R in E; simpl in E; rewrite E; exact HC).
+    destruct (add_task g0 t) as [g'|e] eqn:A; [exact (proj1 (closed_add_task _ _ _ HC0 A)) | exact HC0].
+  - destruct (resolve g a) as [ga t] eqn:R. destruct (resolve_all ga adeps) as [g0 deps] eqn:RA.
+    assert (HC0 : ClosedG (g_vs g0)).
+    { pose proof (resolve_all_vs adeps ga) as E2. rewrite RA in E2. simpl in E2. rewrite E2.
+      pose proof (resolve_vs g a) as E; rewrite R in E; simpl in E; rewrite E; exact HC. }
+    destruct (retrieve_or_add g0 t) as [[g1 id]|e] eqn:RR; [|exact HC0].
+    destruct (closed_retrieve _ _ _ _ HC0 RR) as (C1 & _ & C3). apply closed_depends_on; assumption.
+  - destruct (resolve g a) as [g0 t] eqn:R.
+    assert (HC0 : ClosedG (g_vs g0)) by (pose proof (resolve_vs g a) as E; rewrite R in E; simpl in E; rewrite E; exact HC).
+    destruct (retrieve_or_add g0 t) as [[g1 id]|e] eqn:RR; [|exact HC0].
+    destruct (closed_retrieve _ _ _ _ HC0 RR) as (C1 & _ & C3). simpl.
     intros p c Hc. apply keys_vset_incl.
     destruct (str_eqb_spec p id) as [->|N].
     + rewrite lk_vset_same in Hc. simpl in Hc. exact (C1 id c Hc).
